@@ -18,7 +18,7 @@ from fractions import Fraction as Q
 import z3
 
 from .common import *  # noqa
-from engine import decython
+from engine import decython, xcheck
 
 NEG = z3.RealVal(-10 ** 9)
 
@@ -272,6 +272,10 @@ def obligations(tier):
                     r = s.check()
                     det = {"candidates": [nm for nm, _, _ in cands]}
                     st = PROVED if r == z3.unsat else (REFUTED if r == z3.sat else UNDECIDED)
+                    if r == z3.unsat:
+                        det["xcheck"] = xcheck.second_opinion(s)
+                        if det["xcheck"].startswith("DISAGREE"):
+                            st = UNDECIDED
                     if r == z3.sat:
                         m = s.model()
                         det["counter_model"] = {str(d): str(m[d]) for d in m.decls()}
@@ -284,7 +288,13 @@ def obligations(tier):
                         t1 = time.time()
                         s.add(z3.Not(tgt_ok))
                         r2 = s.check()
+                        st2 = PROVED if r2 == z3.unsat else (REFUTED if r2 == z3.sat else UNDECIDED)
+                        det2 = {}
+                        if r2 == z3.unsat:
+                            det2["xcheck"] = xcheck.second_opinion(s)
+                            if det2["xcheck"].startswith("DISAGREE"):
+                                st2 = UNDECIDED
                         obs.append(Ob(name.replace("chosen gain == max(previous best, every admissible candidate)",
                                                    "recorded targets are those of a candidate attaining the chosen gain"),
-                                      PROVED if r2 == z3.unsat else (REFUTED if r2 == z3.sat else UNDECIDED), "z3-LRA", "P", {}, time.time() - t1, fn))
+                                      st2, "z3-LRA", "P", det2, time.time() - t1, fn))
     return obs
